@@ -73,7 +73,10 @@ def run(db, chk):
                         if node.get("a") and pp(strip(node["a"][0])) == "elevation":
                             st = st.add("ev", "copied")
                     if node.get("k") == "cast" and not node.get("impl") and node.get("ck") == "NoOp" \
-                            and "elevation" in pp(node["e"]) and "m_elevation_copy" not in pp(node["e"]):
+                            and self.fn.type(node.get("t")).strip().endswith("*") \
+                            and not self.fn.type(node.get("t")).startswith("const ") \
+                            and any(n.get("k") == "ref" and n.get("rk") == "param" for n in walk(node["e"])) \
+                            and "m_elevation_copy" not in pp(node["e"]):
                         ok = any(f.startswith("!(") and "elevation_updated" in f for f in st.get("facts"))
                         sites.append(("const_cast of the input", node, ok))
                     if node.get("k") == "unop" and node["op"] == "&" and \
@@ -108,6 +111,22 @@ def run(db, chk):
                             if m.get("k") == "lambda" and m.get("fid") in fn.unit.fns:
                                 lam = fn.unit.fns[m["fid"]]
                                 iters.append((a0["obj"], lam.body, lam))
+            # explicit iterator loops: a cursor initialised from begin() and tested by a loop
+            cursors = {}
+            for n in walk(fn.body):
+                if n.get("k") == "decl":
+                    for v in n["vars"]:
+                        for m in walk(v.get("init")) if v.get("init") is not None else []:
+                            if m.get("k") == "call" and m.get("obj") is not None and \
+                                    m.get("bn", "").split("::")[-1] in ("begin", "cbegin"):
+                                cursors[v["n"]] = m["obj"]
+                                break
+            if cursors:
+                for n in walk(fn.body):
+                    if n.get("k") in ("for", "while", "do") and n.get("c") is not None:
+                        used = {r["n"] for r in walk(n["c"]) if r.get("k") == "ref" and r.get("n") in cursors}
+                        for name in sorted(used):
+                            iters.append((cursors[name], n.get("body"), fn))
             for (rng, body, bfn) in iters:
                 t = fn.type(strip(rng).get("t"))
                 if "std::unordered_" not in t:
@@ -276,8 +295,9 @@ def purity(db, eff, chk, uname, rid):
     for f in fns:
         if f.is_ctor or f.d.get("dtor"):
             continue
-        if f.acc == "private" or f.name.startswith("build_") or f.name.startswith("set_"):
-            # private helpers: only count them if reachable from a non-constructor function
+        if f.acc != "public":
+            # private / protected helpers only matter through the public functions that reach them
+            # (effect summaries are transitive); helpers used by the constructors alone are construction
             continue
         s = eff.summary(f)
         for (k, p, h) in s.effects:
